@@ -79,4 +79,14 @@ CHECKS = {
         note=COMMON_NOTE + " ArgMax on NaN is not generated (ONNX silent).",
         technique="TLA+ operator semantics + TLC BFS case enumeration, replayed into operator API and Model.Run; defect model for the known finding",
         design_ref="DESIGN.md section 6 (C09)"),
+    "C10": dict(
+        text="Bounded-exhaustive for the exactly computable operators (Abs, Relu, PRelu with slope broadcasting, Not) over shapes, dtypes "
+             "and the IEEE special-value catalogue; for the 13 transcendental operators the specification holds a reference table "
+             "(correctly rounded float32 values at 79 arguments per function, generated with mpmath) whose laws (parity, monotonicity, "
+             "range, exact anchors) TLC checks as invariants; TLC embeds the grid in tensors of every rank (f32/f64) and the harness "
+             "requires shape/dtype preservation and agreement within the stated ulp tolerance, NaN/Inf/out-of-domain propagation included. "
+             "Accuracy off the grid is not decided (TLA+ has no reals).",
+        note=COMMON_NOTE,
+        technique="TLA+ value semantics + spec-resident reference table, TLC BFS case enumeration replayed into operator API and Model.Run",
+        design_ref="DESIGN.md section 6 (C10)"),
 }
